@@ -245,6 +245,8 @@ def run(ctx):
                     if sv is None:
                         # the seed is what a private helper returns under the constant this operator binds (`self.identity()`)
                         sx = strip_refs(s.seed)
+                        while sx[0] == "agg" and sx[1].get("variant") in ("Ok", "Some") and sx[2]:
+                            sx = strip_refs(sx[2][0])        # a carried Result / Option: the seed is its payload
                         live_ = _live_under_constants(facts, u, b)
                         if sx[0] == "call" and sx[1] and sx[1].get("local") and sx[1]["key"] in live_:
                             hb_ = facts.body(sx[1]["key"])
